@@ -41,7 +41,9 @@ def main():
                     digest, obs, v, _ = s.step(hist, oi, init)
                     n += 1
                     viol += len(v)
-                    h.update(repr((kind, hist, oi, digest, obs)).encode())
+                    # what is compared across processes: the observation, the model and the league - not the module-globals
+                    # snapshot that is part of the in-process state key (a pure memo cache may legally differ with history)
+                    h.update(repr((kind, hist, oi, obs, s.last_public if digest is not None else None)).encode())
                     if digest is not None and digest not in seen:
                         seen[digest] = 1
                         nxt.append(hist + (oi,))
